@@ -8,6 +8,10 @@
 //! The driver `/verif/check` merges shard reports and decides the verdict.
 #![allow(clippy::type_complexity, clippy::too_many_arguments, clippy::needless_range_loop)]
 
+mod blockprops;
+mod drip;
+mod duts;
+mod hdlc;
 mod rec;
 mod ring;
 mod util;
@@ -63,6 +67,10 @@ fn main() {
     let rep: Report = match cmd.as_str() {
         "c01" => ring::main(&opts, false),
         "c02" => ring::main(&opts, true),
+        "c08" => blockprops::main(&opts, blockprops::Mode::C08),
+        "c09" => blockprops::main(&opts, blockprops::Mode::C09),
+        "c10" => blockprops::main(&opts, blockprops::Mode::C10),
+        "c12" => blockprops::main(&opts, blockprops::Mode::C12),
         other => {
             eprintln!("unknown subcommand {other}");
             std::process::exit(64);
